@@ -100,6 +100,12 @@ func genC12(g *Gen, tier string, w *bufio.Writer) {
 		{Kind: KList, N: 3, Elem: &Ty{Kind: KList, N: 2, Elem: u64}},
 		{Kind: KUnion, HasNone: true, Fields: []*Ty{{Kind: KList, N: 2, Elem: u64}}},
 		{Kind: KList, N: 1 << 40, Elem: u64},
+		// unions whose options are fixed-size composites (of at most / more than one chunk), bare and nested
+		{Kind: KUnion, HasNone: true, Fields: []*Ty{{Kind: KContainer, Fields: []*Ty{{Kind: KUint, N: 2}, {Kind: KUint, N: 2}}}, u64}},
+		{Kind: KUnion, Fields: []*Ty{{Kind: KVector, N: 8, Elem: u64}, {Kind: KBytesN, N: 32}}},
+		{Kind: KContainer, Fields: []*Ty{u8, {Kind: KList, N: 4, Elem: &Ty{Kind: KUnion, HasNone: true, Fields: []*Ty{{Kind: KContainer, Fields: []*Ty{{Kind: KUint, N: 2}, {Kind: KUint, N: 2}}}, u64}}}}},
+		{Kind: KContainer, Fields: []*Ty{{Kind: KUint, N: 2}, {Kind: KList, N: 4, Elem: &Ty{Kind: KContainer, Fields: []*Ty{{Kind: KUint, N: 2}, {Kind: KUint, N: 2}}}}}},
+		{Kind: KVector, N: 3, Elem: &Ty{Kind: KVector, N: 5, Elem: u64}},
 	}
 	for _, t := range small {
 		for rep := 0; rep < 3; rep++ {
